@@ -193,3 +193,28 @@ def search(ctx):
         ctx.evaluations += 1
     ctx.notes.append(f"failing-input search: {n} fresh inputs, no invalid solution")
     return None
+
+
+def replay_case(payload):
+    """search / validity_sample findings: validity predicates on every solution returned for the stored input
+    (ordered inputs carry a "pres" key, unordered ones do not)"""
+    case = payload["case"]
+    if "pres" not in case and all(not l.get("syn") for _, l in R.otree_leaves(case["O"])):
+        r = c01.impl_thl(case)
+        if "error" in r:
+            return False, r["error"], r
+        for k in ("all", "any", "exh"):
+            ok, why = _valid_plain(case, r[k])
+            if not ok:
+                return False, f"{k}: {why}", r
+        return True, "every returned reconciliation is valid", r
+    mod, valid = (c02, LB.valid_ordered) if "pres" in case else (c03, LB.valid_unordered)
+    r = mod.impl(case)
+    for k in ("ext", "base"):
+        if r.get(k) is None:
+            return False, f"{k} raised {r.get(k + '_error')}", r
+        for sol in r[k] + r.get(k + "_any", []):
+            ok, why = valid(case["S"], case["O"], sol)
+            if not ok:
+                return False, f"{k}: {why}", r
+    return True, "every returned solution is valid", r
